@@ -106,3 +106,9 @@ Lemma ex_ping_hyp_rep :
   exists m, parse_msg (fun _ => true) (dec_rep ex_ping) = Ok (Some m) /\ is_ping (m_command m) = true /\
             m_args m = [[98]] /\ valid_arg [98] = true.
 Proof. eexists. repeat split; vm_compute; reflexivity. Qed.
+
+(* utils.str.format directives: what the scanner of the model counts (":%s" "@%r%%" "%5.1f%d" "%.f %") *)
+Lemma consuming_examples :
+  consuming [58; 37; 115] = 1 /\ consuming [64; 37; 114; 37; 37] = 1 /\
+  consuming [37; 53; 46; 49; 102; 37; 100] = 1 /\ consuming [37; 46; 102; 32; 37] = 0 /\ consuming [58] = 0.
+Proof. repeat split; vm_compute; reflexivity. Qed.
